@@ -1891,8 +1891,9 @@ class _ScheduleRun:
       partition  the argument lists of the calls made on the parameter source
     The allocation is client 1 of 3 of its task, client 5 of 8 of the schedule element (distinct values, so that provenance shows)."""
 
-    def __init__(self, drv, fields, params_infinite=True, runner_completed=None, ramp_up=None):
+    def __init__(self, drv, fields, params_infinite=True, runner_completed=None, ramp_up=None, global_index=5, total=8):
         self.drv = drv
+        self._ALLOC = (("task", None), ("client_index_in_task", 1), ("global_client_index", global_index), ("total_clients", total))
         self.machine = m = _Machine(drv, on_opaque_call=self._opaque_call)
         self.partition = []
         self.params = _Obj("partitioned parameter source", infinite=params_infinite, percent_completed=_Sym("params.percent_completed"), on_call=lambda attr, a, k: _Opaque(f"params.{attr}()"))
@@ -2005,6 +2006,32 @@ def loop_control_flow_rule(chk, rid, drv):
     arg(ri, "IterationBased", I, 7, "IterationBased(iterations := task.iterations)")
     arg(rt, "TimePeriodBased", Wt, 30, "TimePeriodBased(warm-up := task.warmup_time_period)")
     arg(rt, "TimePeriodBased", T, 120, "TimePeriodBased(period := task.time_period)")
+    # the values the task states explicitly reach the control whatever else schedule_for looks at on the way (the parameter source finite / infinite, a runner that reports
+    # completion), and a stated 0 is a stated value (a period of 0 s: warm-up only), not "nothing stated"
+    XROWS = [("warm-up iterations 3, iterations 7, FINITE parameter source", {"warmup_iterations": 3, "iterations": 7}, False, None, "IterationBased", ((W, 3), (I, 7))),
+             ("warm-up iterations 3, iterations 7, a runner that reports completion", {"warmup_iterations": 3, "iterations": 7}, True, False, "IterationBased", ((W, 3), (I, 7))),
+             ("iterations 7 (no warm-up iterations), FINITE parameter source", {"iterations": 7}, False, None, "IterationBased", ((I, 7),)),
+             ("iterations 7 (no warm-up iterations), infinite parameter source", {"iterations": 7}, True, None, "IterationBased", ((I, 7),)),
+             ("warm-up period 30 s, period 120 s, FINITE parameter source", {"warmup_time_period": 30, "time_period": 120}, False, None, "TimePeriodBased", ((Wt, 30), (T, 120))),
+             ("warm-up period 30 s, period 0 s (warm-up only)", {"warmup_time_period": 30, "time_period": 0}, True, None, "TimePeriodBased", ((Wt, 30), (T, 0)))]
+    for label, fields, inf_, rc_, want_cls, want_args in XROWS:
+        try:
+            r = _ScheduleRun(drv, fields, inf_, rc_)
+        except CannotEval as e:
+            chk.unknown(rid, f"schedule_for is not evaluable on a task with {label}: {e}", sfn)
+            continue
+        if r.control is None:
+            chk.unknown(rid, f"schedule_for constructs neither IterationBased nor TimePeriodBased for a task with {label}" + (f" (it raises {r.error})" if r.error else ""), sfn)
+            continue
+        gots = [r.control.ctor.get(p_, _MISSING) for p_, _ in want_args]
+        if _unknown(gots) is not None:
+            chk.unknown(rid, f"task with {label}: the value schedule_for hands to the constructor is one the walk does not know ({_unknown(gots)!r})", sfn)
+            continue
+        ok = r.kind() == want_cls and all(g is not _MISSING and type(g) is type(w_) and g == w_ for g, (_, w_) in zip(gots, want_args))
+        chk.ob(rid, f"stated values reach the control: {label} => {want_cls}({', '.join(f'{p_}={w_}' for p_, w_ in want_args)})", ok, sfn,
+               f"{r.kind()}({', '.join(f'{k}={v!r}' for k, v in r.control.ctor.items())})"
+               + ("" if ok or r.kind() != want_cls else ": the stated count / period is lost, the parameter source (or nothing) ends the task instead"),
+               key=f"{_D}:schedule_for:stated:[{label}]")
     bad, seen = [], []
     try:
         for label, r in rows:
@@ -2312,6 +2339,24 @@ def iteration_control_rule(chk, rid, drv):
         chk.unknown(rid, f"IterationBased.infinite gives a value the walk does not know ({_unknown([g for _, g in got])!r})", _prop(drv, IB, "infinite"))
         return
     chk.ob(rid, "infinite == iterations is None", [g for _, g in got] == [True, False, False], _prop(drv, IB, "infinite"), "; ".join(f"IterationBased({a[0]}, {a[1]}).infinite is {g!r}" for a, g in got))
+    # 0 measured iterations (warm-up only) is a stated count: finite, completed after exactly W requests, all of them warm-up
+    wz = _ControlRun(drv, IB, [WI, 0])
+    if wz.obj is None:
+        chk.ob(rid, "IterationBased(W, 0): finite, W warm-up requests", False, IB, f"IterationBased({WI}, 0) raises {wz.error}")
+    else:
+        wz.do("start")
+        zs = []
+        for k in range(WI + 1):
+            zs.append((wz.read("completed"), _sample_kind(wz.read("sample_type")) if k < WI else None, wz.read("percent_completed") if k < WI else None))
+            wz.do("next")
+        zi = wz.read("infinite")
+        if _unknown(zi, [(d_, p_) for d_, _, p_ in zs]) is not None:
+            chk.unknown(rid, f"IterationBased({WI}, 0) driven through start() / next(): a value the walk does not know ({_unknown(zi, [(d_, p_) for d_, _, p_ in zs])!r})", IB)
+        else:
+            chk.ob(rid, "IterationBased(W, 0): finite, W warm-up requests", zi is False and [d_ for d_, _, _ in zs] == [False] * WI + [True] and [k_ for _, k_, _ in zs[:WI]] == ["Warmup"] * WI
+                   and all(isinstance(p_, (int, float)) and _close(p_, (k + 1) / WI) for k, (_, _, p_) in enumerate(zs[:WI])), _prop(drv, IB, "infinite"),
+                   f"IterationBased({WI}, 0): infinite {zi!r} (expected False); completed before the k-th next(): {[d_ for d_, _, _ in zs]}; sample types {[k_ for _, k_, _ in zs[:WI]]}; progress {[p_ for _, _, p_ in zs[:WI]]}",
+                   key=f"{_D}:IterationBased:zero-iterations")
     z, nz = _ControlRun(drv, IB, [0, 0]), _ControlRun(drv, IB, [0, 1])
     chk.ob(rid, "W + I == 0 rejected", z.obj is None and nz.obj is not None, drv.methods(IB).get("__init__") or drv.methods(IB).get("__post_init__") or IB,
            f"IterationBased(0, 0) {'raises ' + str(z.error) if z.obj is None else 'is accepted'}; IterationBased(0, 1) {'raises ' + str(nz.error) if nz.obj is None else 'is accepted'}")
@@ -2385,6 +2430,29 @@ def time_control_rule(chk, rid, drv):
            ("" if ikinds == ["Warmup", "Warmup", "Normal", "Normal"] else ": `now` never advances, every sample stays warm-up"), key=f"{_D}:TimePeriodBased:now-unconditional")
     chk.ob(rid, "start() sets start to the current clock", isnum(by[0.0][2]) and _close(by[0.0][2], 0.0) and by[0.0][1] == "Warmup" and by[0.0][0] is False and by[9.9][1] == "Warmup" and by[10.1][1] == "Normal", f_el,
            f"built at virtual time 50, start() at {S:g}: right after start() progress {pr(0.0)!r}, completed {by[0.0][0]!r}, sample type {by[0.0][1]}; warm-up ends between start + 9.9 s and start + 10.1 s: {by[9.9][1]} / {by[10.1][1]}")
+
+
+    # `infinite` (the generator's choice between "loop until completed" and "loop until the parameter source ends") is about a period that is ABSENT: a period of 0 s (a task
+    # that only warms up) is a stated period, the task ends when the warm-up period has elapsed
+    inf = [(a, _ControlRun(drv, TB, a, t=50.0)) for a in ([WT, None], [WT, TP], [WT, 0], [WT, 0.0], [0, TP])]
+    got = [(a, r.read("infinite") if r.obj is not None else f"raises {r.error}") for a, r in inf]
+    f_inf = _prop(drv, TB, "infinite")
+    if _unknown([g for _, g in got]) is not None:
+        chk.unknown(rid, f"TimePeriodBased.infinite gives a value the walk does not know ({_unknown([g for _, g in got])!r})", f_inf)
+    else:
+        chk.ob(rid, "infinite == the period is None (a period of 0 is finite)", [g for _, g in got] == [True, False, False, False, False], f_inf,
+               "; ".join(f"TimePeriodBased({a[0]!r}, {a[1]!r}).infinite is {g!r}" for a, g in got), key=f"{_D}:TimePeriodBased.infinite:none-only")
+    zseq, zerr = drive([WT, 0], [9.9, 10.1])
+    if zseq is None:
+        chk.ob(rid, "a period of 0 s: completed once the warm-up period has elapsed", False, TB, f"TimePeriodBased({WT:g}, 0) {zerr}")
+    elif _unknown([(done, p_) for _, done, _, p_ in zseq]) is not None:
+        chk.unknown(rid, f"TimePeriodBased({WT:g}, 0) driven through start() / next(): a value the walk does not know ({_unknown([(done, p_) for _, done, _, p_ in zseq])!r})", TB)
+    else:
+        zd, zk, zp = [x[1] for x in zseq], [x[2] for x in zseq], [x[3] for x in zseq]
+        chk.ob(rid, "a period of 0 s: completed once the warm-up period has elapsed", zd == [False, False, True] and zk[:2] == ["Warmup", "Warmup"] and all(isnum(p_) and -1e-12 <= p_ <= 1 + 1e-12 for p_ in zp[:2])
+               and _close(zp[1], 9.9 / WT), f_co,
+               f"TimePeriodBased({WT:g}, 0) at start + [0, 9.9, 10.1] s: completed {zd} (expected False, False, True), sample types {zk}, progress {[round(p_, 4) if isinstance(p_, float) else p_ for p_ in zp]}",
+               key=f"{_D}:TimePeriodBased:zero-period")
 
 
 def simple_schedulers_rule(chk, rid, sch):
@@ -2480,6 +2548,24 @@ def ramp_up_formula_rule(chk, rid, drv):
         return
     chk.ob(rid, "ramp-up wait == ramp * (i / total)", _close(got[0], 8.0 * 5 / 8) and (got[1] == 0 and not isinstance(got[1], bool)), rw,
            f"ramp-up 8 s, client 5 of 8 (client 1 of 3 of its task): wait {got[0]!r} s (expected 5); without ramp-up: {got[1]!r} (expected 0)")
+    # the position the allocator hands out is NOT reduced modulo the number of clients of the element: a parallel element whose tasks ask for more clients than the element has
+    # (over-commitment) yields element-wide indices >= total; the delay stays ramp * i / total for every index (linear, no wrap-around, no clamp), and is 0 for the first client
+    lin = []
+    for i, total in ((0, 8), (7, 8), (8, 8), (11, 8), (3, 2)):
+        r = _ScheduleRun(drv, {"warmup_iterations": 3, "iterations": 7}, ramp_up=8.0, global_index=i, total=total)
+        if not (isinstance(r.handle, _Obj) and r.handle.cls is SH):
+            raise AnchorMissing("the ScheduleHandle object schedule_for returns" + (f" (schedule_for raises {r.error})" if r.error else ""))
+        try:
+            lin.append((i, total, r.machine.load(r.handle, "ramp_up_wait_time", rw)))
+        except _Rse as x:
+            lin.append((i, total, f"raises {x.name()}"))
+    if _unknown([w for _, _, w in lin]) is not None:
+        chk.unknown(rid, f"ScheduleHandle.ramp_up_wait_time gives a value the walk does not know ({_unknown([w for _, _, w in lin])!r})", rw)
+        return
+    bad = [(i, total, w) for i, total, w in lin if isinstance(w, (str, bool)) or not _close(w, 8.0 * i / total)]
+    chk.ob(rid, "ramp-up wait == ramp * (i / total) for every element-wide client index the allocator hands out (first client, last client, indices >= total of an over-committed parallel element)",
+           not bad, rw, "ramp-up 8 s: " + "; ".join(f"client {i} of {total}: wait {w!r} s" + (f" (expected {8.0 * i / total:g})" if (i, total, w) in bad else "") for i, total, w in lin),
+           key=f"{_D}:ScheduleHandle.ramp_up_wait_time:linear")
 
 
 def _task_as_loaded(repo, **given):
@@ -3107,4 +3193,37 @@ VARIANTS = [
     V("the choice reads other attributes of the task for a log line", "keep", _D, "    if task.warmup_time_period is not None or task.time_period is not None:\n        return True",
       "    periods = (task.warmup_time_period, task.time_period)\n    if task.clients > 1 and not task.completes_parent:\n        logging.getLogger(__name__).debug(\"choosing the loop control of [%s]\", task.name)\n"
       "    if any(p is not None for p in periods):\n        return True"),
+    # ---- round 6: m16 (ramp-up wrap-around), m17 (period 0 counts as infinite), m18 (stated iterations dropped for a finite parameter source) -------------------------
+    V("seed m16: the client position is reduced modulo the number of clients", "break", _D,
+      "            return ramp_up_time_period * (self.task_allocation.global_client_index / self.task_allocation.total_clients)\n",
+      "            total_clients = self.task_allocation.total_clients\n            return ramp_up_time_period * ((self.task_allocation.global_client_index % total_clients) / total_clients)\n", "O5.4"),
+    V("the ramp-up delay is capped at the ramp-up period", "break", _D,
+      "            return ramp_up_time_period * (self.task_allocation.global_client_index / self.task_allocation.total_clients)\n",
+      "            return min(ramp_up_time_period, ramp_up_time_period * (self.task_allocation.global_client_index / self.task_allocation.total_clients))\n", "O5.4"),
+    V("the client position is clamped to the last client of the element", "break", _D,
+      "            return ramp_up_time_period * (self.task_allocation.global_client_index / self.task_allocation.total_clients)\n",
+      "            position = min(self.task_allocation.global_client_index, self.task_allocation.total_clients - 1)\n            return ramp_up_time_period * (position / self.task_allocation.total_clients)\n", "O5.4"),
+    V("ramp-up delay respelled with locals, multiplication first", "keep", _D,
+      "            return ramp_up_time_period * (self.task_allocation.global_client_index / self.task_allocation.total_clients)\n",
+      "            position, total = self.task_allocation.global_client_index, self.task_allocation.total_clients\n            return (ramp_up_time_period * position) / total\n"),
+    V("seed m17: TimePeriodBased.infinite tests the truth value of the period", "break", _D, "        return self._time_period is None\n", "        return not self._time_period\n", "O5.2"),
+    V("TimePeriodBased.infinite: a non-positive period counts as absent", "break", _D, "        return self._time_period is None\n",
+      "        return self._time_period is None or self._time_period <= 0\n", "O5.2"),
+    V("schedule_for turns a period of 0 into no period", "break", _D, "        loop_control = TimePeriodBased(warmup_time_period, task.time_period)\n",
+      "        loop_control = TimePeriodBased(warmup_time_period, task.time_period or None)\n", "O5.5"),
+    V("TimePeriodBased.infinite as an if", "keep", _D, "        return self._time_period is None\n", "        if self._time_period is None:\n            return True\n        return False\n"),
+    V("IterationBased.infinite tests the truth value of the count", "break", _D, "        return self._iterations is None\n", "        return not self._iterations\n", "O5.1"),
+    V("IterationBased.infinite as an if", "keep", _D, "        return self._iterations is None\n", "        if self._iterations is None:\n            return True\n        return False\n"),
+    V("seed m18: the iteration cascade condensed into one conditional expression (precedence)", "break", _D,
+      "        if task.iterations:\n            iterations = task.iterations\n        elif params_for_op.infinite:\n            # this is usually the case if the parameter source provides a constant\n            iterations = 1\n        else:\n            iterations = None\n",
+      "        iterations = task.iterations or 1 if params_for_op.infinite else None\n", "O5.5"),
+    V("stated iterations honoured only when the runner does not report completion", "break", _D,
+      "        if task.iterations:\n            iterations = task.iterations\n        elif params_for_op.infinite:\n",
+      "        if task.iterations and runner_for_op.completed is None:\n            iterations = task.iterations\n        elif params_for_op.infinite:\n", "O5.5"),
+    V("the parameter source is asked first", "break", _D,
+      "        if task.iterations:\n            iterations = task.iterations\n        elif params_for_op.infinite:\n            # this is usually the case if the parameter source provides a constant\n            iterations = 1\n        else:\n            iterations = None\n",
+      "        if not params_for_op.infinite:\n            iterations = None\n        elif task.iterations:\n            iterations = task.iterations\n        else:\n            iterations = 1\n", "O5.5"),
+    V("the iteration cascade as one conditional expression, parenthesised as meant", "keep", _D,
+      "        if task.iterations:\n            iterations = task.iterations\n        elif params_for_op.infinite:\n            # this is usually the case if the parameter source provides a constant\n            iterations = 1\n        else:\n            iterations = None\n",
+      "        iterations = task.iterations or (1 if params_for_op.infinite else None)\n"),
 ]
